@@ -85,6 +85,7 @@ class WorldA:
         self.refusals = _refusal_types()
         self.check_rng = random.Random(plan["check_seed"])
         self.hooks: list[Any] = []  # property-specific checkers: fn(world, op, info)
+        self.foreign: list[Any] = []  # other contexts that compiled the same symbolic circuits
         self.on_reset: list[Any] = []  # observers of every single reset inside a burst
         self.on_compiled: list[Any] = []  # observers of a successful compile (before the birth tests)
         self.on_compile_error: list[Any] = []  # observers of a compile that raised: fn(circ, exc)
@@ -719,6 +720,29 @@ class WorldA:
         c.cc.train(bool(op.get("train", False)))
         return {"status": "ok", "recheck": True}
 
+    def op_foreign_compile(self, op: dict[str, Any]) -> dict[str, Any]:
+        """Another pipeline context (kept alive) compiles the *same symbolic circuit objects*, e.g.
+        to compare flag settings.  Nothing in the long-lived context may change: what is derived
+        in it afterwards must still read its own operands' tensors."""
+        from cirkit.pipeline import PipelineContext
+
+        c = self.get(op["target"])
+        if c is None:
+            return {"status": "noop"}
+        fl = op.get("flags", {})
+        ctx2 = PipelineContext(backend="torch", semiring=self.semiring,
+                               fold=bool(fl.get("fold", self.fold)),
+                               optimize=bool(fl.get("optimize", self.optimize)))
+        seed_rng(op["seed"])
+        try:
+            cc2 = ctx2.compile(c.sc)
+        except Exception as e:
+            self.tr.count(f"foreign-compile:failed:{type(e).__name__}")
+            return {"status": "failed", "recheck": True}
+        self.foreign.append((ctx2, cc2))
+        self.tr.count("foreign-compile:ok")
+        return {"status": "ok", "recheck": True}
+
     def op_save(self, op: dict[str, Any]) -> dict[str, Any]:
         c = self.get(op["target"])
         if c is None:
@@ -745,8 +769,17 @@ class WorldA:
         if owner != c.name:
             return {"status": "noop"}
         sd = torch.load(io.BytesIO(data), weights_only=True)
+        assign = bool(op.get("assign", False))
         try:
-            res = c.cc.load_state_dict(sd, strict=True)
+            # assign=True: torch replaces the Parameter objects by the loaded tensors instead of
+            # copying into them - the other documented way of loading a checkpoint
+            res = c.cc.load_state_dict(sd, strict=True, assign=assign)
+            if assign:
+                self.tr.count("load:assign")
+                for b in c.bases:
+                    bc = self.circs.get(b)
+                    if bc is not None and bc.alive:
+                        self._make_optimizer(bc)  # the optimiser held the replaced objects
         except Exception as e:
             if "S1" not in self.checks:
                 # whether a state_dict loads back is C19's subject; for the other properties a
